@@ -64,6 +64,29 @@ def r5_1(ctx, R):
                         under_occ = from_occ = True
                 ctx.ob("R5.1", a, "accessor-some-only-under-occupied#%d" % n, under_occ and from_occ, a.loc(bb),
                        "facts=%s payload=%s" % (sorted(facts_here), expr_str(payload)))
+        if n == 0:
+            # no `Some(..)` is built at a return: the answer is the verdict of an inlined helper / an expanded combinator
+            # (`self.get_slot(key).and_then(Slot::project)`) moved into the return slot after a join -- decide per path
+            from lib_flow import sensitive_paths, PathEval, path_const_feasible
+            bad = None
+            for kind_, pth, know in sensitive_paths(a, fl, 2):
+                if kind_ != "return" or not path_const_feasible(a, pth):
+                    continue
+                r_ = PathEval(a, pth).local_expr(0)
+                if r_[0] == "agg" and r_[1].endswith("Option::None"):
+                    continue
+                if r_[0] == "agg" and r_[1].endswith("Option::Some"):
+                    n += 1
+                    if ("@" + occ) not in repr(strip_refs(r_[2][0])):
+                        bad = bad or (pth, expr_str(r_))
+                    continue
+                if r_[0] == "call" and "FromResidual" in (r_[1] or ""):
+                    continue        # `?` on an Option: None
+                bad = bad or (pth, expr_str(r_))
+            if n or bad:
+                ctx.ob("R5.1", a, "accessor-some-only-under-occupied#paths", bad is None and n > 0, d_loc(a),
+                       "%d paths return Some; %s" % (n, "all wrap the Occupied payload" if bad is None else "offending: %s" % bad[1][:200]),
+                       path=bad[0] if bad else None)
         ctx.floor("R5.1", "accessor-some-returns:" + a.path, n, 1)
     pops = {p.path for p in R.pop_fns}
     accp = {a.path for a in accs}
